@@ -8,6 +8,7 @@ import (
 	"testing"
 
 	"github.com/vedadiyan/genql"
+	"github.com/vedadiyan/genql/compare"
 )
 
 // Joins against the textbook definition: every pair satisfying ON, plus - for LEFT (RIGHT) - each left (right) row
@@ -47,6 +48,14 @@ type c04Cond struct {
 
 // c04Cmp orders two values of one scalar kind.
 func c04Cmp(a, b any) int {
+	if _, isStr := a.(string); !isStr {
+		if _, isF := a.(float64); !isF {
+			return compare.Compare(a, b) // mixed Go numeric types: the library's own order (C15)
+		}
+		if _, isF := b.(float64); !isF {
+			return compare.Compare(a, b)
+		}
+	}
 	switch x := a.(type) {
 	case float64:
 		y := b.(float64)
@@ -79,14 +88,14 @@ func TestC04(t *testing.T) {
 	}
 	kinds := []string{"JOIN", "LEFT JOIN", "RIGHT JOIN", "HASH_JOIN", "LEFT HASH_JOIN", "RIGHT HASH_JOIN", "STRAIGHT_JOIN",
 		"PARALLEL JOIN", "PARALLEL LEFT JOIN", "PARALLEL RIGHT JOIN", "PARALLEL HASH_JOIN", "PARALLEL LEFT HASH_JOIN", "PARALLEL RIGHT HASH_JOIN", "PARALLEL STRAIGHT_JOIN"}
-	doms := [][]any{{1.0, 2.0}, {"a-", "a", "b", "-b"}}
+	doms := [][]any{{1.0, 2.0}, {"a-", "a", "b", "-b"}, {uint32(1), 1.0, int64(2), 2.0}}
 	n := 2
 	repeatParallel := 1
 	if tier() == "thorough" {
 		repeatParallel = 5
 	}
 	r := &result{Property: "C04", Name: "joins-equal-the-textbook-multiset",
-		Bound: fmt.Sprintf("all pairs of tables of 0..%d rows, two columns each, over the number domain %v (every pair) and the string domain %v (every pair of tables with <= 1 row; the values are chosen so that two different key pairs print alike when simply run together); %d ON conditions (=, !=, <, >=, <=, AND, OR, either orientation, a column used twice, names that sort differently on the two sides); %d join kinds x strategies (PARALLEL ones run %d time(s)); result compared as a multiset with a nested-loop reference; aliases x/y and o/oi (one a prefix of the other) alternate", n, doms[0], doms[1], len(conds), len(kinds), repeatParallel)}
+		Bound: fmt.Sprintf("all pairs of tables of 0..%d rows, two columns each, over the number domain %v (every pair) and the string domain %v (every pair of tables with <= 1 row; the values are chosen so that two different key pairs print alike when simply run together) and a domain of mixed Go numeric types %v (tables with <= 1 row); %d ON conditions (=, !=, <, >=, <=, AND, OR, either orientation, a column used twice, names that sort differently on the two sides); %d join kinds x strategies (PARALLEL ones run %d time(s)); result compared as a multiset with a nested-loop reference; aliases x/y and o/oi (one a prefix of the other) alternate", n, doms[0], doms[1], doms[2], len(conds), len(kinds), repeatParallel)}
 	for di, dom := range doms {
 		ls := c04Tables([2]string{"a", "z"}, dom, n)
 		rs := c04Tables([2]string{"m", "b"}, dom, n)
@@ -103,11 +112,11 @@ func TestC04(t *testing.T) {
 			}
 			for _, c := range conds {
 				for _, l := range ls {
-					if di == 1 && len(l) > 1 {
+					if di >= 1 && len(l) > 1 {
 						continue
 					}
 					for _, rt := range rs {
-						if di == 1 && len(rt) > 1 {
+						if di >= 1 && len(rt) > 1 {
 							continue
 						}
 						var want []string
